@@ -99,6 +99,15 @@ class Scan:
     # -- expressions ---------------------------------------------------------------------
     def order_value(self, e, env):
         """<path>.phasepoints[IDX].order[0]  ->  ("ord", "cur"|"next")"""
+        if isinstance(e, ast.Subscript) and isinstance(e.value, ast.Name) and e.value.id in HOISTED:
+            idx = self.ev(e.slice, env)
+            if idx[0] != "aff":
+                raise AnalysisError("R-10.2: frame index of the scan is not an integer expression")
+            if idx[1] == {"i": 1}:
+                return ("ord", "cur")
+            if idx[1] == {"i": 1, 1: 1}:
+                return ("ord", "next")
+            raise AnalysisError(f"R-10.1: the scan reads the frame at index {idx[1]}, not the current / next one (cannot decide)")
         if not (isinstance(e, ast.Subscript) and isinstance(e.slice, ast.Constant) and e.slice.value == 0):
             return None
         a = e.value
@@ -345,6 +354,15 @@ def canon(state):
 # ------------------------------------------------------------------------------------------
 # locating the parts of the function
 # ------------------------------------------------------------------------------------------
+HOISTED = {}
+
+
+class ScanViolation(Exception):
+    def __init__(self, node, msg):
+        super().__init__(msg)
+        self.node, self.msg = node, msg
+
+
 def _locate(tree):
     f = tree.func(TIS, WF)
     ps = [a.arg for a in f.args.args]
@@ -356,6 +374,31 @@ def _locate(tree):
         if isinstance(st, ast.For) and any(isinstance(x, ast.Attribute) and x.attr == "order" for x in ast.walk(st)):
             loop = st
             break
+    HOISTED.clear()
+    if loop is None:
+        # the per-frame progress coordinate read once before the scan: X = [pp.order[0] for pp in path.phasepoints]
+        for st in f.body:
+            if isinstance(st, ast.Assign) and len(st.targets) == 1 and isinstance(st.targets[0], ast.Name):
+                comps = [c for c in ast.walk(st.value) if isinstance(c, (ast.ListComp, ast.GeneratorExp)) and len(c.generators) == 1 and not c.generators[0].ifs
+                         and ast.unparse(c.generators[0].iter).replace(" ", "") == f"{path_p}.phasepoints" and isinstance(c.generators[0].target, ast.Name)]
+                if not comps:
+                    continue
+                c = comps[0]
+                pv = c.generators[0].target.id
+                elt = ast.unparse(c.elt).replace(" ", "")
+                wrappers = [last_name(w) for w in ast.walk(st.value) if isinstance(w, ast.Call)]
+                if elt == f"{pv}.order[0]" and not set(wrappers) - {"array", "asarray", "list", "tuple", "fromiter"}:
+                    HOISTED[st.targets[0].id] = st
+                elif elt == f"{pv}.order":
+                    col0 = isinstance(st.value, ast.Subscript) and ast.unparse(st.value.slice).replace(" ", "") in (":,0", "(slice(None,None,None),0)")
+                    if col0:
+                        HOISTED[st.targets[0].id] = st
+                    else:
+                        raise ScanViolation(st, f"the scan reads the frames' order parameters through `{short(st, 60)}`, which strings all components of every frame together: with an order parameter that returns [progress coordinate, cv1, ...] element i is not the progress coordinate of frame i, so collective variables are compared with the interfaces - weights, time-reversal symmetry and the seed segment are wrong (a one-component order parameter hides it)")
+        for st in f.body:
+            if isinstance(st, ast.For) and any(isinstance(x, ast.Subscript) and isinstance(x.value, ast.Name) and x.value.id in HOISTED for x in ast.walk(st)):
+                loop = st
+                break
     if loop is None:
         raise AnalysisError("R-10.2: the scan loop of wirefence_weight_and_pick was not found")
     if not isinstance(loop.target, ast.Name) or loop.orelse:
@@ -379,6 +422,8 @@ def _pre_state(scan, f, loop):
             break
         if isinstance(st, ast.Expr) and isinstance(st.value, ast.Constant):
             continue
+        if any(st is h for h in HOISTED.values()):
+            continue  # the per-frame progress coordinates read before the scan (interpreted as frame reads)
         pre.append(st)
     scan.regs = {"cur": 2, "next": 2}
     scan.block(pre, env, out)
@@ -651,7 +696,11 @@ def _subst(form, tup):
 
 def r102(ctx, roles):
     tree = ctx.tree
-    f, loop, path_p, left_p, right_p, ivar = _locate(tree)
+    try:
+        f, loop, path_p, left_p, right_p, ivar = _locate(tree)
+    except ScanViolation as sv:
+        ctx.bad("R-10.1", sv.node, sv.msg, construct="scan reads flattened order vectors")
+        return None
     scan = Scan(f, loop, path_p, left_p, right_p, ivar)
     init = _pre_state(scan, f, loop)
     lists = [k for k, v in init.items() if v[0] == "list"]
@@ -671,6 +720,13 @@ def r102(ctx, roles):
             v = st.value
             if isinstance(v, ast.Subscript) and isinstance(v.value, ast.Attribute) and v.value.attr == "order":
                 ordnames.add(st.targets[0].id)
+            if isinstance(v, ast.Subscript) and isinstance(v.value, ast.Name) and v.value.id in HOISTED:
+                ordnames.add(st.targets[0].id)
+        # op1, op2 = X[i], X[i + 1]
+        if isinstance(st, ast.Assign) and len(st.targets) == 1 and isinstance(st.targets[0], ast.Tuple) and isinstance(st.value, ast.Tuple) and len(st.targets[0].elts) == len(st.value.elts):
+            for t_, v_ in zip(st.targets[0].elts, st.value.elts):
+                if isinstance(t_, ast.Name) and isinstance(v_, ast.Subscript) and ((isinstance(v_.value, ast.Name) and v_.value.id in HOISTED) or (isinstance(v_.value, ast.Attribute) and v_.value.attr == "order")):
+                    ordnames.add(t_.id)
     nuse = 0
     for n in ast.walk(f):
         if isinstance(n, ast.Name) and n.id in ordnames and isinstance(n.ctx, ast.Load):
@@ -1301,6 +1357,8 @@ _SCAN_EMIT = "            path_arr.append((isave, i + 1, i - isave))"
 _JUMP = "        if (op1 < left and op2 >= right) or (op2 < left and op1 >= right):\n            pass\n        elif op2 >= left > op1 and not key_l:"
 
 VARIANTS = [
+    B("c10-scan-reads-flattened-order-vectors", TIS, "    for i in range(len(path.phasepoints[:-1])):\n        op1 = path.phasepoints[i].order[0]\n        op2 = path.phasepoints[i + 1].order[0]\n", "    orders = np.ravel([pp.order for pp in path.phasepoints])\n    for i in range(len(path.phasepoints[:-1])):\n        op1, op2 = orders[i], orders[i + 1]\n", "R-10.1", control=True, why="seeded C10_h"),
+    K("c10-keep-scan-reads-hoisted-first-components", TIS, "    for i in range(len(path.phasepoints[:-1])):\n        op1 = path.phasepoints[i].order[0]\n        op2 = path.phasepoints[i + 1].order[0]\n", "    orders = [pp.order[0] for pp in path.phasepoints]\n    for i in range(len(path.phasepoints[:-1])):\n        op1, op2 = orders[i], orders[i + 1]\n"),
     B("c10-selection-sums-span-not-count", TIS, "        for ipath in path_arr:\n            sum_frames += ipath[2]\n", "        for ipath in path_arr:\n            sum_frames += ipath[1] - ipath[0]\n", "R-10.3", control=True, why="seeded C10_g"),
     K("c10-keep-selection-sums-recomputed-count", TIS, "        for ipath in path_arr:\n            sum_frames += ipath[2]\n", "        for ipath in path_arr:\n            sum_frames += ipath[1] - ipath[0] - 1\n"),
     B("c10-selection-against-last-interface", TIS, "        trial_path, wf_int[0], wf_int[2], return_seg=True, ens_set=ens_set", "        trial_path, wf_int[0], ens_set[\"interfaces\"][2], return_seg=True, ens_set=ens_set", "R-10.5", why="seeded C10_f"),
